@@ -309,6 +309,28 @@ func (oc *originCtx) classOf(fd *ast.FuncDecl, e ast.Expr, depth int) string {
 		if se, ok := x.Fun.(*ast.SelectorExpr); ok && se.Sel.Name == "clone" && len(x.Args) == 0 {
 			return "clone"
 		}
+		// a helper of the package with a single result: the join of what its return statements return (a helper that
+		// wraps newNode / newNodeFromRef builds a node just as the call it wraps does)
+		if callee := oc.calleeOf(x); callee != nil && callee.Body != nil && callee.Type.Results != nil && callee.Type.Results.NumFields() == 1 {
+			set := map[string]bool{}
+			ast.Inspect(callee.Body, func(n ast.Node) bool {
+				if _, ok := n.(*ast.FuncLit); ok {
+					return false
+				}
+				if rs, ok := n.(*ast.ReturnStmt); ok && len(rs.Results) == 1 {
+					set[oc.classOf(callee, rs.Results[0], depth+1)] = true
+				}
+				return true
+			})
+			if len(set) > 0 {
+				var l []string
+				for k := range set {
+					l = append(l, k)
+				}
+				sort.Strings(l)
+				return strings.Join(l, "+")
+			}
+		}
 		return "unknown:call " + r.Text(x.Fun)
 	case *ast.SelectorExpr:
 		// a field of the result of the copy-on-write search
@@ -351,6 +373,30 @@ func (oc *originCtx) classOf(fd *ast.FuncDecl, e ast.Expr, depth int) string {
 		return strings.Join(l, "+")
 	}
 	return "unknown:" + r.Text(e)
+}
+
+// calleeOf: the declaration of the package function (or method, by its name when that name is unique) a call goes to
+func (oc *originCtx) calleeOf(c *ast.CallExpr) *ast.FuncDecl {
+	name, method := "", false
+	switch f := c.Fun.(type) {
+	case *ast.Ident:
+		name = f.Name
+	case *ast.SelectorExpr:
+		name, method = f.Sel.Name, true
+	default:
+		return nil
+	}
+	var found *ast.FuncDecl
+	for _, fd := range oc.funcs {
+		if fd.Name.Name != name || (fd.Recv != nil) != method {
+			continue
+		}
+		if found != nil {
+			return nil // ambiguous
+		}
+		found = fd
+	}
+	return found
 }
 
 // defsOf: the right-hand sides assigned to the local variable `name` anywhere in fd
